@@ -127,19 +127,21 @@ PROPS = {
     },
     "C13": {
         "level": "proof",
-        "explanation": "Verus proves on the extracted text, for byte strings of every length: validate_utf8_scalar against the Unicode "
-                       "Table 3-7 definition (Ok iff well-formed; on rejection the error kind and the offset, relative to the longest "
-                       "well-formed prefix), and the broadword engine's accept scan: validate_sequence == the Table 3-7 sequence length and "
-                       "accepts(input) == well_formed(input), so validate_utf8_broadword (accepts ? Ok : scalar) returns exactly the scalar "
-                       "result. Kani proves completely: encode_code_point/decode_code_point round-trip for every u32 and every 4-byte window, "
-                       "line_and_column's SWAR newline counter against the naive count, first_high_byte for all 2^64 masks. The AVX2 accept "
-                       "kernel (lookup-table classifier carried across 32-byte blocks) is NOT proved: bounded Kani evidence on inputs whose "
-                       "symbolic bytes sit on block boundaries and tails; its wrapper also defers to the scalar validator on rejection. "
+        "explanation": "Verus proves on the extracted text, for byte strings of every length, all three engines: (scalar) "
+                       "validate_utf8_scalar against the Unicode Table 3-7 definition (Ok iff well-formed; on rejection the error kind and "
+                       "the offset, relative to the longest well-formed prefix); (broadword) validate_sequence == the Table 3-7 sequence "
+                       "length and accepts(input) == well_formed(input); (AVX2) uge / ult lane predicates, check_block (lane i of the "
+                       "accumulated error is set exactly when the kernel's local rule fires at byte i, looking back three bytes across the "
+                       "block boundary) and validate_utf8_avx2(input) == well_formed(input), via a machine-checked theorem that the local "
+                       "rule fires nowhere in the zero-padded stream exactly when the string is well formed. Both SIMD wrappers return Ok "
+                       "when their acceptor says yes and otherwise the scalar result, so all engines agree. Kani proves completely: "
+                       "encode_code_point/decode_code_point round-trip for every u32 and every 4-byte window, line_and_column's SWAR newline "
+                       "counter against the naive count, first_high_byte for all 2^64 masks, the vector lane model on the real intrinsics. "
                        "The offset convention of the scalar validator differs from the property's wording for one class of inputs: recorded finding F6.",
-        "trusted_base": COMMON_TRUST + [MODELS + "_mm256_max_epu8, _mm256_testz_si256", "Verus 0.2026.09.13 + Z3",
-                                        "seam R4: skip_ascii / err_at / load_word / load_block stubs (Kani-checked contracts, see units c13_scalar, c13_broadword)"],
-        "assumptions": ["AVX2 acceptor soundness: bounded only (coverage.bounded lists the shapes)",
-                        "the is_x86_feature_detected! wrapper validate_utf8_simd is not executed by Kani (cpuid)",
+        "trusted_base": COMMON_TRUST + [MODELS + "_mm256_max_epu8, _mm256_testz_si256", "Verus 0.2026.09.13 + Z3; intrinsic lane model verus/speclib_simd.rs",
+                                        "seam R4: skip_ascii / err_at / load_word / load_block / padded_block stubs (Kani-checked or documented contracts, see units c13_scalar, c13_broadword, c13_avx2)"],
+        "assumptions": ["the cpuid wrapper validate_utf8_simd (is_x86_feature_detected!, then kernel ? Ok : scalar) is a two-line composition, not extracted",
+                        "lane meaning of max_epu8 / and / xor / permute2x128 / alignr / testz is the Intel SDM's (not cross-checked natively by Kani)",
                         "little-endian target; usize is 64 bits"],
     },
     "C09": {
